@@ -300,7 +300,13 @@ func (t *Thread) processIncomingInterest(packet *defn.Pkt) {
 
 	// If NextHopFaceId set, forward to that face (if it exists) or drop
 	if packet.NextHopFaceID != nil {
-		if dispatch.GetFace(*packet.NextHopFaceID) != nil {
+		if nextHopFace := dispatch.GetFace(*packet.NextHopFaceID); nextHopFace != nil {
+			// Check if violates /localhost
+			if nextHopFace.Scope() == defn.NonLocal && len(interest.NameV) > 0 &&
+				bytes.Equal(interest.NameV[0].Val, LOCALHOST) {
+				core.LogWarn(t, "Interest ", packet.Name, " cannot be sent to non-local FaceID=", *packet.NextHopFaceID, " since violates /localhost scope - DROP")
+				return
+			}
 			core.LogTrace(t, "NextHopFaceId is set for Interest ", packet.Name, " - dispatching directly to face")
 			dispatch.GetFace(*packet.NextHopFaceID).SendPacket(dispatch.OutPkt{
 				Pkt:      packet,
@@ -364,6 +370,13 @@ func (t *Thread) processOutgoingInterest(
 	if interest.HopLimitV != nil && int(*interest.HopLimitV) == 0 &&
 		outgoingFace.Scope() == defn.NonLocal {
 		core.LogDebug(t, "Attempting to send Interest=", packet.Name, " with HopLimit=0 to non-local face - DROP")
+		return false
+	}
+
+	// Check if violates /localhost
+	if outgoingFace.Scope() == defn.NonLocal && len(interest.NameV) > 0 &&
+		bytes.Equal(interest.NameV[0].Val, LOCALHOST) {
+		core.LogWarn(t, "Interest ", packet.Name, " cannot be sent to non-local FaceID=", nexthop, " since violates /localhost scope - DROP")
 		return false
 	}
 
